@@ -626,3 +626,9 @@ PROPS["C02"]["rule"] += " RDNSS servers include the IPv4 unspecified, broadcast 
 PROPS["C06"]["rule"] += " Thorough tier additionally: every history of exactly 5 events (solicitation from ::, from a host, link change) on the boundary grid {0, 1 ns, 3 s - 1 ns, 3 s, 3 s + 1 ns} (759 375 histories)."
 PROPS["C02"]["rule"] += " Wrong-type sweep: every key of every table (interface, prefix, route, rdnss, dnssl, pref64, debug) is given each of 24 values of every other TOML type (booleans, integers, floats incl. inf and nan, strings, arrays, inline tables, date-times): all must be rejected."
 PROPS["C02"]["rule"] += " Integers are written in every TOML spelling (decimal, 0x, 0o, 0b, digit separators, plus sign) and a third of the duration strings as TOML literal strings."
+PROPS["C02"]["rule"] += " Malformed durations include the spellings other tools accept (percentages, days, weeks, years, ISO 8601, clock notation, unit words, upper-case units, padded or separated digits)."
+PROPS["C03"]["rule"] += " The hostile values include undocumented spellings (49711d, 99999d, 200000d, 9999w, 150y, percentages): should the parser accept one, the RA must still fit the wire."
+PROPS["C05"]["rule"] += " The parsed pairs also use percentages and day fractions (accepted only if documented)."
+PROPS["C19"]["rule"] += " Interface names include names that are prefixes of one another (eth1, eth10, eth1.100, e)."
+PROPS["C14"]["rule"] += " One random case in four lists one of the interface's own addresses (half of the time the wildcard's pick) among the static servers: the option is then not judged, the plugin must be unchanged."
+PROPS["C16"]["rule"] += " Wildcard cases give every other interface address the kernel's deprecated flag: only the stanza's own deprecated setting decides about counting down."
